@@ -4,7 +4,7 @@ PROP = dict(
         extra=dict(mode="meta", dataevery=8),
         corpus_filter=r"^c08_",
         flag_filter=r"^(slot_unique|used_eq_count|total_eq_slots|metrics_eq|placement_eligible|store_fails_iff|reclaim_exact|prune_only_unreferenced|shrink_keeps_occupied|lost_counted|meta/)",
-        quick=dict(n=720, len=45, shards=8, timeout=300),
+        quick=dict(n=600, len=45, shards=8, timeout=300),
         thorough=dict(n=8000, len=70, shards=16, timeout=1700),
         nontrivial=r"res=placed", min_ops=8, min_kinds=4,
         trusted_base=COMMON_TB + [
